@@ -7,7 +7,7 @@
 (* Priority 99 stands for None (effective priority 0).  The next task out  *)
 (* is the one with the highest effective priority, earliest arrival first. *)
 (***************************************************************************)
-EXTENDS Naturals, Integers, Sequences, FiniteSets, SequencesExt
+EXTENDS Naturals, Integers, Sequences, FiniteSets, SequencesExt, TLC
 
 NONE == 99
 Eff(p) == IF p = NONE THEN 0 ELSE p
@@ -33,6 +33,20 @@ Outcomes(q, o) ==
                           ELSE {Out(q, Ok(<<q[BestIdx(q)].t>>))}
     [] o.op = "len"    -> {Out(q, Ok(<<Len(q)>>))}
     [] OTHER -> {}
+
+(* ---- the same semantics for queues of tens of thousands of entries, in a form TLC can evaluate: the service order ----
+   is the arrival sequence sorted by (effective priority descending, arrival ascending) - one SortSeq instead of   *)
+(* repeated selection of the best entry                                                                            *)
+Indexed(q) == [i \in 1..Len(q) |-> [t |-> q[i].t, e |-> Eff(q[i].p), i |-> i]]
+ServiceOrder(q) == LET s == SortSeq(Indexed(q), LAMBDA a, b : a.e > b.e \/ (a.e = b.e /\ a.i < b.i)) IN [i \in 1..Len(s) |-> s[i].t]
+SeqToSet(s) == {s[i] : i \in 1..Len(s)}
+(* bulk_add: new entries appended; a task already present is re-added (its old entry goes, the new one is last) *)
+BulkAdd(q, items) == LET ts == {items[i][1] : i \in 1..Len(items)} IN
+                     SelectSeq(q, LAMBDA e : e.t \notin ts) \o [i \in 1..Len(items) |-> [t |-> items[i][1], p |-> items[i][2]]]
+BulkRemove(q, ts) == LET S == SeqToSet(ts) IN SelectSeq(q, LAMBDA e : e.t \notin S)
+(* n pops in a row: the first n of the service order go, the rest stays in arrival order *)
+PopN(q, n) == LET so == ServiceOrder(q)  out == SubSeq(so, 1, n)  S == SeqToSet(out) IN
+              [popped |-> out, rest |-> SelectSeq(q, LAMBDA e : e.t \notin S)]
 
 (* reads: len, and the complete service order (obtained by the harness by popping until empty) *)
 Obs(q) == [len |-> Len(q), drain |-> Drain(q)]
